@@ -245,6 +245,23 @@ theorem wrapN_closed : ∀ (k : Nat) (x : String), wrapN k x = rep k "(*" ++ x +
     show _ = _ ++ x ++ (")" ++ rep k ")")
     simp only [String.append_assoc]
 
+theorem rep_length (k : Nat) (s : String) : (rep k s).length = k * s.length := by
+  induction k with
+  | zero => simp [rep]
+  | succ k ih => simp [rep, String.length_append, ih, Nat.succ_mul]; omega
+
+theorem accessClosed_length (x : String) (k : Nat) :
+    (accessClosed x k).length = x.length + (if k = 0 then 1 else 3 * (k - 1) + 2) := by
+  unfold accessClosed
+  have h0 : (".": String).length = 1 := by decide
+  have h1 : ("(*" : String).length = 2 := by decide
+  have h2 : (")" : String).length = 1 := by decide
+  have h3 : ("->" : String).length = 2 := by decide
+  by_cases h : k = 0
+  · simp [h, String.length_append, h0]
+  · simp only [h, if_false, String.length_append, rep_length]
+    rw [h1, h2, h3]; omega
+
 theorem render_wrapE : ∀ (k : Nat) (e : CExpr), render (wrapE k e) = wrapN k (render e)
   | 0, e => rfl
   | k + 1, e => by
